@@ -186,7 +186,7 @@ func c10GenBudgetInput(r *kit.Rand) *c10BInput {
 	npods := kit.Pick(r, []int{0, 1, 2, 3, 5, 8, 12})
 	ambigAllowed := r.Pct(12)
 	labels := []apiext.QoSClass{apiext.QoSLSE, apiext.QoSLSR, apiext.QoSLS, apiext.QoSLS, apiext.QoSBE, apiext.QoSBE, apiext.QoSSystem, apiext.QoSNone}
-	perPod := c10Max(1, 2*cpus/c10Max(1, npods))
+	perPod := c10Max(1, cpus/c10Max(1, npods))
 	for i := 0; i < npods; i++ {
 		p := c10BPod{uid: fmt.Sprintf("pod-%d", i), label: kit.Pick(r, labels), statusQ: r.Pct(70), hasMeta: true}
 		switch p.label {
